@@ -7,4 +7,4 @@ import TvNetTable.Props.C19
 #print axioms TV.C19.deadline
 #print axioms TV.C19.tie_order
 #print axioms TV.C19.drop_never_delivered
-#print axioms TV.C19.drop_never_delivered'
+#print axioms TV.C19.drop_never_delivered_direct
